@@ -121,6 +121,34 @@ def is_param(t):
   return True
 
 
+def _is_abs_of(x, a):
+  return x[0] == 'call' and x[1] in ('jax.numpy.abs', 'numpy.abs', 'abs', 'jax.numpy.absolute') and len(x[2]) == 1 and x[2][0] == a
+
+
+def _implies_nonzero(cond, a):
+  """cond => a != 0 for the shapes  c < a (c >= 0),  c < |a|,  a != 0."""
+  if cond[0] == 'lt' and pred.is_const(cond[1]) and isinstance(cond[1][1], (int, float)) and cond[1][1] >= 0:
+    return cond[2] == a or _is_abs_of(cond[2], a)
+  if cond[0] == 'notin' and cond[1] == a and set(cond[2]) == {0}:
+    return True
+  if cond[0] == 'ne' and ((cond[1] == a and pred.is_const(cond[2]) and cond[2][1] == 0) or (cond[2] == a and pred.is_const(cond[1]) and cond[1][1] == 0)):
+    return True
+  return False
+
+
+def _implies_zero_or_small(cond, a):
+  """where(cond, K, a): cond is the NEGATION of one of the shapes above (a == 0, a <= c, |a| <= c)."""
+  if cond[0] == 'in' and cond[1] == a and set(cond[2]) == {0}:
+    return True
+  if cond[0] == 'eq' and ((cond[1] == a and pred.is_const(cond[2]) and cond[2][1] == 0) or (cond[2] == a and pred.is_const(cond[1]) and cond[1][1] == 0)):
+    return True
+  if cond[0] == 'not':
+    return _implies_nonzero(cond[1], a)
+  if cond[0] == 'le' and pred.is_const(cond[2]) and isinstance(cond[2][1], (int, float)) and cond[2][1] >= 0:
+    return cond[1] == a or _is_abs_of(cond[1], a)
+  return False
+
+
 def classify(t):
   """-> (class, epsilon or None)."""
   if pred.is_const(t):
@@ -158,6 +186,16 @@ def classify(t):
           return 'SAFE', a[1]
     if name in ('jax.numpy.exp', 'numpy.exp'):
       return 'SAFE', None
+    if name in ('jax.numpy.sqrt', 'numpy.sqrt') and len(t[2]) == 1 and classify(t[2][0])[0] in ('SAFE', 'GUARDED'):
+      return 'SAFE', None          # the root of a value bounded away from 0
+    # the double-where idiom: where(A > 0, A, K) / where(A != 0, A, K) / where(|A| > eps, A, K) with a positive constant K
+    # -- the selected value is never 0, on either arm (the gradient-safe way to write 1/A or sqrt(A))
+    if name in ('jax.numpy.where', 'numpy.where') and len(t[2]) == 3:
+      cond, a_, k_ = t[2]
+      if _pos_const(k_) and _implies_nonzero(cond, a_):
+        return 'SAFE', None
+      if _pos_const(a_) and _implies_zero_or_small(cond, k_):
+        return 'SAFE', None
   # 1 - clip(x, a, b)**2 with -1 < a, b < 1 is bounded away from 0 (the complement of a clipped sine / cosine)
   if t[0] == 'bin' and t[1] == 'Sub' and pred.is_const(t[2]) and t[2][1] == 1:
     sq = t[3]
